@@ -41,7 +41,10 @@ def root_value(case, live, where):
         return live['vars'][key]
     if pname == 'shortcut':
         return live['shortcuts']['c12sc'][key]
-    return live[pname]['steps'][L.step_index(j, bool(case.get('threads')))]['in'][key]
+    turn = bool(case.get('threads'))
+    if isinstance(j, (tuple, list)):
+        return live[pname][f'sub{j[0]}'][L.step_index(j[1], turn)]['in'][key]
+    return live[pname]['steps'][L.step_index(j, turn)]['in'][key]
 
 
 def run_case(case):
@@ -189,10 +192,12 @@ def run_case(case):
                     return [S.to_tree(root_value(case, lv, w)) for w, _ in rts]
                 except (KeyError, IndexError, TypeError) as e:
                     return [{'obj': f'root lost: {e!r}'}]
-            solo = {}
-            for p in ('main', 'other'):
-                solo[p] = one_run(p)
-                solo[p]['defs'] = defs_now()
+            pipes = L.thread_pipes(case)
+            solo = []
+            for p in pipes:
+                r = one_run(p)
+                r['defs'] = defs_now()
+                solo.append(r)
             obs['solo'] = solo
             obs['threaded'] = []
             for sched in case['threads']['schedules']:
@@ -205,7 +210,7 @@ def run_case(case):
                         res[tid] = one_run(p, tid)
                     except BaseException as e:      # harness failure
                         res[tid] = {'harness_error': repr(e)}
-                ths = [threading.Thread(target=work, args=(p, tid)) for tid, p in enumerate(('main', 'other'))]
+                ths = [threading.Thread(target=work, args=(p, tid)) for tid, p in enumerate(pipes)]
                 for t in ths:
                     t.start()
                 for t in ths:
@@ -214,7 +219,7 @@ def run_case(case):
                 if any(t.is_alive() for t in ths) or any('harness_error' in r for r in res.values()):
                     raise RuntimeError(f'threaded run failed: {res}')
                 res[0]['defs'] = res[1]['defs'] = defs_now()
-                obs['threaded'].append({'schedule': sched, 'main': res[0], 'other': res[1]})
+                obs['threaded'].append({'schedule': sched, 'runs': [res[0], res[1]]})
         # a final outcome for errors: context of a failed run is not returned by run(); fine
         return obs
     finally:
@@ -232,8 +237,8 @@ def run_case(case):
 
 
 def coq_threads_check(case, obs, stp='step'):
-    solo = '[' + '; '.join(L.coq_obs(obs['solo'][p]) for p in ('main', 'other')) + ']'
-    thr = '[' + '; '.join(f'({L.coq_obs(t["main"])}, {L.coq_obs(t["other"])})' for t in obs['threaded']) + ']'
+    solo = '[' + '; '.join(L.coq_obs(r) for r in obs['solo']) + ']'
+    thr = '[' + '; '.join(f'({L.coq_obs(t["runs"][0])}, {L.coq_obs(t["runs"][1])})' for t in obs['threaded']) + ']'
     return (f'(c12_threads_check {stp} {L.coq_defs(case)} {L.coq_threads(case)} {L.coq_scheds(case)} '
             f'{solo} {thr})')
 
